@@ -2,29 +2,9 @@
 //! C10 + C11 byte-level target: bytes that decode are executed differentially against RefVM (C10) and
 //! stepped against their weight with the weigh-work counter (C11). First byte selects the initial heap shape.
 use libfuzzer_sys::fuzz_target;
-use mv::evidence::Stats;
-use mv::refvm::{self, RVal};
 
 fuzz_target!(|data: &[u8]| {
-    if data.is_empty() {
-        return;
-    }
-    let (sel, code) = (data[0], &data[1..]);
-    let ops = match refvm::decode(code) {
-        Ok(o) => o,
-        Err(_) => return,
-    };
-    let heap: Vec<RVal> = match sel % 4 {
-        0 => vec![],
-        1 => vec![refvm::int_u128(sel as u128), RVal::Bytes(vec![sel; 32])],
-        2 => vec![RVal::Vec(vec![refvm::int_u128(1), RVal::Bytes(vec![2, 3]), RVal::Vec(vec![])]), refvm::int_u128(65535)],
-        _ => vec![RVal::Bytes(vec![]), RVal::Vec(vec![RVal::Vec(vec![refvm::int_u128(7)])]), refvm::int_u128(0), refvm::int_u128(1)],
-    };
-    let mut st = Stats::default();
-    if let Err(v) = mv::mon::c10::check_program(&ops, &heap, &mut st) {
-        panic!("VIOLATION C10 {} :: {}", v.signature, v.detail);
-    }
-    if let Err(v) = mv::mon::c11::check_cost(&ops, &mut st) {
-        panic!("VIOLATION C11 {} :: {}", v.signature, v.detail);
+    if let Err(v) = mv::fuzzing::target_vm(data) {
+        panic!("VIOLATION C10/C11 {} :: {}", v.signature, v.detail);
     }
 });
